@@ -33,6 +33,7 @@ RULE = ('fault-injection matrix: 10 fault kinds (wrong output, exception, except
         '(first/middle/last) x preceding want x preceding multi-line statement x on_error (return/raise) x verbosity (0 quick; 0..3 '
         'thorough): model vs DocTest.run, expectation failed + kind + TRACE + repr_failure renders and names type and line; runner level: '
         'a module with [pass, FAULT, pass] per fault kind + a module that fails to import, through doctest_module and `python -m xdoctest`. '
+        'random composites: programs of every plain statement kind / both prompt styles / correct wants / prose between parts / inline SKIPs with one fault of 16 kinds at a random place (and sometimes a second, unreachable one), on_error and verbosity drawn at random: kind, exception type, TRACE, failing line, rendered report. '
         'non-trivial = every case (each injects a fault)')
 ASSUMPTIONS = ['exceptions raised by exec/eval of a part always have a traceback frame whose filename is the doctest (checked on every run)']
 
@@ -260,6 +261,7 @@ def correspondence(ctx, corr):
     common.run_family(ctx, corr, 'c09_matrix', {'verbose': [0] if ctx.quick else [0, 1, 2, 3]})
     common.run_family(ctx, corr, 'c09_helper_sweep', {'verbose': [0] if ctx.quick else [0, 2], 'max_extra': 6 if ctx.quick else 12})
     common.run_family(ctx, corr, 'c09_rerun', {})
+    common.run_family(ctx, corr, 'c09_random', {'count': 60 if ctx.quick else 2000})
     corr.exhaustive = True
     running_loop_level(ctx, corr)
     late_directive_level(ctx, corr)
@@ -267,7 +269,7 @@ def correspondence(ctx, corr):
 
 
 def search(ctx, corr, broken):
-    return common.search_families(ctx, corr, [('c09_matrix', {'verbose': [0, 2]}), ('c09_helper_sweep', {'verbose': [0, 2], 'max_extra': 8}), ('c09_rerun', {})])
+    return common.search_families(ctx, corr, [('c09_matrix', {'verbose': [0, 2]}), ('c09_helper_sweep', {'verbose': [0, 2], 'max_extra': 8}), ('c09_rerun', {}), ('c09_random', {'count': 120})])
 
 
 K_C09_A_TEXT = ">>> import sys\n>>> print(t(0))\n>>> sys.stdout.close()\n>>> print(t(1))\n"
